@@ -75,6 +75,28 @@ def _is_advanced(ix):
     return any(isinstance(i, (np.ndarray, list)) for i in items)
 
 
+def _overlap_is_value_first(tv, ix, val):
+    from mgverif.hooks import root_array
+    root = root_array(tv)
+    if root_array(val) is not root or not (root.flags.c_contiguous or root.flags.f_contiguous):
+        return False
+    base_addr = root.__array_interface__["data"][0]
+
+    def clone():
+        r2 = root.copy(order="K")
+        flat = np.lib.stride_tricks.as_strided(r2, shape=(r2.size,), strides=(r2.itemsize,))
+        mk = lambda a: np.ndarray(a.shape, a.dtype, buffer=flat, offset=a.__array_interface__["data"][0] - base_addr, strides=a.strides)
+        return r2, mk(tv), mk(val)
+    try:
+        r_a, t_a, v_a = clone()
+        t_a[ix] = v_a                      # what NumPy does with the overlap
+        r_b, t_b, v_b = clone()
+        t_b[ix] = np.array(v_b, copy=True)  # value read first
+    except Exception:
+        return False
+    return bool(np.array_equal(r_a, r_b))
+
+
 def s_setitem(b, t, adv_prob=0.45):
     rng = b.rng
     tv = b.val(t)
@@ -89,12 +111,20 @@ def s_setitem(b, t, adv_prob=0.45):
     if np.size(sub) == 0 and rng.random() < 0.8:
         return False
     val, refs = value_for(b, np.shape(sub), tv.dtype.kind)
+    if rng.random() < 0.06 and tv.ndim >= 1 and tv.shape[0] >= 2 and tv.dtype.kind == "f":
+        # the very same tensor as the value, under a step-only slice (x[::-1] = x reverses in place)
+        ix = (slice(None, None, rng.choice([-1, -1, 1])),) + ((slice(None, None, -1),) if (tv.ndim >= 2 and rng.random() < 0.3) else ())
+        if len(ix) == 1 and rng.random() < 0.6:
+            ix = ix[0]      # the bare slice object as the key (not a 1-tuple)
+        sub = tv[ix]
+        val, refs = R(t), [t]
     adv = not (isinstance(sub, np.ndarray) and sub.base is not None and np.shares_memory(sub, tv)) and np.size(sub) > 0 and not np.isscalar(sub)
-    if refs and isinstance(b.val(refs[0]), np.ndarray) and np.shares_memory(b.val(refs[0]), tv) and not _is_advanced(ix) \
-            and isinstance(sub, np.ndarray) and (b.val(refs[0]).shape != sub.shape or b.val(refs[0]).strides != sub.strides):
-        # ... and for basic slices NumPy only delivers 'value read first' when source and target walk memory alike: with different strides
-        # (x[2:8:2] = x[2:5]) elements written earlier are read back (observed with NumPy 2.x), again an artifact and not a specification
-        return False
+    if refs and isinstance(b.val(refs[0]), np.ndarray) and np.shares_memory(b.val(refs[0]), tv) and not _is_advanced(ix):
+        # ... and for basic slices NumPy delivers 'value read first' only for some overlap patterns (x[::-1] = x reverses properly, but
+        # x[2:8:2] = x[2:5] reads back elements it has just written - observed with NumPy 2.x). The statement is generated only where
+        # NumPy's own result on a scratch copy of the buffer equals the value-read-first result, i.e. where NumPy is a specification.
+        if not _overlap_is_value_first(tv, ix, b.val(refs[0])):
+            return False
     if refs and isinstance(b.val(refs[0]), np.ndarray) and np.shares_memory(b.val(refs[0]), tv) and _is_advanced(ix):
         # NumPy's own result for fancy / boolean-mask assignment from an OVERLAPPING source is an implementation artifact (not the
         # 'value is read first' semantics it guarantees for basic slices), so it cannot serve as the specification there
@@ -349,6 +379,10 @@ def s_bad(b, t):
             return False           # NumPy can do it without a copy: not a bad statement
         except AttributeError:
             st = {"k": "setshape", "tgt": t, "shape": ["t", dims]}
+    elif c < 0.55 and tv.ndim >= 1:
+        # IndexError (out of bounds / too many indices), not ValueError
+        ix = (tv.shape[0] + rng.randint(1, 3)) if rng.random() < 0.5 else ["t", [0] * (tv.ndim + 1)]
+        st = {"k": "setitem", "tgt": t, "index": ix, "value": 1.5}
     elif c < 0.7:
         bad = tuple(n + 1 for n in tv.shape) if tv.ndim else (2, 2)
         st = {"k": "setitem", "tgt": t, "index": ["e"], "value": enc_arr(np.ones(bad))}
@@ -361,10 +395,11 @@ def s_bad(b, t):
 
 
 def gen_history(rng, nstmts=(3, 12), int_prob=0.12, base_from_op_prob=0.4, second_family_prob=0.3, inplace_w=4, view_w=4, read_w=3,
-                setshape_w=0.6, max_ndim=3, layouts=None, nonconst_only=False, const_kw_prob=0.0, bad_w=0.0, cv_as_targets=False, layer_reads=False):
+                setshape_w=0.6, max_ndim=3, layouts=None, nonconst_only=False, const_kw_prob=0.0, bad_w=0.0, cv_as_targets=False, layer_reads=False, guard_off_prob=0.0):
     b = B.Builder(rng)
     b.cv_as_targets = cv_as_targets
     b.layer_reads = layer_reads      # (only where values are compared with a tolerance: the loop references sum in another order)
+    b.guard_off_prob = guard_off_prob
     shape = B.rand_shape(rng, max_ndim, 4, 1)
     is_int = rng.random() < int_prob
     if is_int:
@@ -439,6 +474,8 @@ def grow(b, rng, base, target, inplace_w=4, view_w=4, read_w=3, setshape_w=0.6, 
                 n_inplace += 1
         if ok:
             made += 1
+            if getattr(b, "guard_off_prob", 0.0) and b.prog and rng.random() < b.guard_off_prob and b.prog[-1]["k"] in ("call", "setitem", "aug", "uout"):
+                b.prog[-1]["guard_off"] = True    # this statement runs inside `with mygrad.mem_guard_off:` (graph tracking stays on)
     return n_inplace
 
 
